@@ -633,6 +633,19 @@ impl Context {
             }
             out
         }
+        // a double constant too large for f64 parses to an infinity, whose Display (`inf`)
+        // is no Rust literal
+        fn f64_literal(f: f64) -> String {
+            if f.is_finite() {
+                format!("{f}f64")
+            } else if f.is_nan() {
+                "f64::NAN".into()
+            } else if f > 0.0 {
+                "f64::INFINITY".into()
+            } else {
+                "f64::NEG_INFINITY".into()
+            }
+        }
         Ok(match (lit, ty) {
             (Literal::Path(p), ty) => {
                 let ident_ty = self.codegen_ty(p.did);
@@ -693,11 +706,11 @@ impl Context {
             }
             (Literal::Float(f), CodegenTy::F64) => {
                 let f = f.parse::<f64>().unwrap();
-                (format! { "{f}f64" }.into(), true)
+                (f64_literal(f).into(), true)
             }
             (Literal::Float(f), CodegenTy::OrderedF64) => {
-                let f = f.parse::<f64>().unwrap();
-                (format! { "::pilota::OrderedFloat({f}f64)" }.into(), true)
+                let f = f64_literal(f.parse::<f64>().unwrap());
+                (format! { "::pilota::OrderedFloat({f})" }.into(), true)
             }
             (
                 l,
